@@ -92,6 +92,8 @@ func TestOracleRejects(t *testing.T) {
 		{"unclamped", "bytes=1-40", obs{Status: 206, Header: hdr("Content-Range", "bytes 1-40/10"), CL: 9, Body: []byte("123456789")}, "C20/x/end-past-content/content-range-unclamped"},
 		{"416 for satisfiable", "bytes=1-4", obs{Status: 416, Header: hdr()}, "C20/x/inside/416-although-satisfiable"},
 		{"416 for suffix", "bytes=-4", obs{Status: 416, Header: hdr()}, "C20/x/suffix/416-although-satisfiable"},
+		{"416 for list OWS before a suffix", "bytes=0-1, -3", obs{Status: 416, Header: hdr()}, "C20/x/list-whitespace/416-although-satisfiable"},
+		{"416 for list OWS after an open-ended spec", "bytes=5- ,\t0-1", obs{Status: 416, Header: hdr()}, "C20/x/list-whitespace/416-although-satisfiable"},
 		{"short full", "bytes=abc", obs{Status: 200, Header: hdr(), CL: 9, Body: []byte("012345678")}, "C20/x/malformed/full-content-mismatch"},
 		{"206 other unit", "items=0-1", obs{Status: 206, Header: hdr("Content-Range", "bytes 0-1/10"), CL: 2, Body: []byte("01")}, "C20/x/other-unit/treated-as-bytes-range"},
 		{"cl mismatch", "bytes=0-1", obs{Status: 206, Header: hdr("Content-Range", "bytes 0-1/10"), CL: 3, Body: []byte("01")}, "C20/x/inside/content-length-mismatch"},
@@ -119,6 +121,9 @@ func TestOracleRejects(t *testing.T) {
 		{"bytes=0-1,10-", obs{Status: 416, Header: hdr()}},
 		{"bytes=0-1,10-", obs{Status: 206, Header: hdr("Content-Range", "bytes 0-1/10"), CL: 2, Body: []byte("01")}},
 		{"bytes=abc", obs{Status: 416, Header: hdr()}},
+		{"bytes= 0-1", obs{Status: 416, Header: hdr()}},
+		{"bytes=0 -1", obs{Status: 416, Header: hdr()}},
+		{"bytes=0-1,\u00a0-3", obs{Status: 416, Header: hdr()}},
 		{"items=0-1", obs{Status: 200, Header: hdr(), CL: 10, Body: content}},
 	}
 	for _, c := range ok {
